@@ -34,6 +34,17 @@ var (
 	tier    string
 )
 
+// all expressions with <=3 operator nodes of this small alphabet are part of the thorough tier (complete)
+var mini = promqlgen.Alphabet{
+	Metrics:   []string{"foo", "bar"},
+	Matchers:  []string{"", `a="x"`},
+	Unary:     []string{"sum(%s)", "sum by(a) (%s)", "sum without(a) (%s)", "abs(%s)"},
+	BinOps:    []string{"and", "*"},
+	Modifiers: []string{"", "on(a)", "on(b) group_left(a)"},
+	Scalars:   []string{"1"},
+	Extra:     []string{"vector(1)"},
+}
+
 var (
 	probe      []string
 	chainOps   = []string{"*", "and", "or", "unless"}
@@ -148,7 +159,7 @@ func body(c *explore.Chooser) *explore.Case {
 	// thorough adds core2 = all <=2-operator expressions of the core alphabet (complete)
 	subs := []string{"full1", "wrapped", "chain", "reinclude", "orjoin"}
 	if tier == "thorough" {
-		subs = append(subs, "core2") // complete; all <=2-operator expressions of the full alphabet (~130 M) would only ever be a time-capped sample
+		subs = append(subs, "core2", "mini3") // complete; all <=2-operator expressions of the full alphabet (~130 M) would only ever be a time-capped sample
 	}
 	if len(probe) > 0 { // VERIF_C04_PROBE=file: examine exactly the expressions listed there (debugging aid)
 		subs = []string{"probe"}
@@ -217,6 +228,8 @@ func body(c *explore.Chooser) *explore.Case {
 		ok = true
 	case "core2":
 		e, ok = promqlgen.Gen(c, &promqlgen.Core, 2, "e")
+	case "mini3":
+		e, ok = promqlgen.Gen(c, &mini, 3, "e")
 	case "full2":
 		e, ok = promqlgen.Gen(c, &promqlgen.Full, 2, "e")
 	}
@@ -446,7 +459,7 @@ func describeSources(src []utils.Source) []string {
 func main() {
 	explore.Main(&explore.Config{
 		Property: "C04", Level: "exploration",
-		Rule: "PromQL expressions enumerated from a grammar (selectors x matcher sets, aggregations with by/without, topk/count_values/label_replace/label_join/absent/range functions/subquery/offset, arithmetic/comparison/set operators x on/ignoring/group_left/group_right modifiers): quick = the 3-operator shapes chain (U2(U1(sel)) op mod R, both orientations, core unary/modifiers) reinclude (sel op mod1 (agg(bar) * mod2 sel3), label lists with repeated names) and orjoin ((L1 or L2) op mod R, both orientations), all with <=1 operator node over the full alphabet and every core unary wrapper around every <=1-operator core expression; thorough adds all with <=2 operator nodes over the core alphabet (2.6 M expressions, complete; the full alphabet has ~130 M and would only ever be a time-capped sample, so it is not part of the tier). Every expression on which pint makes a claim (a branch that cannot have some label of {a,b,c,__name__}, or a dead branch) is evaluated by the vendored Prometheus engine on EVERY database of <=2 series drawn from {foo,bar} x {a: absent|x|y} x {b: absent|x} x {c: absent|x}; oracle (i) labels the real alerts/template check reports for single-branch queries never appear on a returned series, (ii) every returned series is consistent with some live branch. distinct = expression text; non-trivial = pint makes a claim",
+		Rule: "PromQL expressions enumerated from a grammar (selectors x matcher sets, aggregations with by/without, topk/count_values/label_replace/label_join/absent/range functions/subquery/offset, arithmetic/comparison/set operators x on/ignoring/group_left/group_right modifiers): quick = the 3-operator shapes chain (U2(U1(sel)) op mod R, both orientations, core unary/modifiers) reinclude (sel op mod1 (agg(bar) * mod2 sel3), label lists with repeated names) and orjoin ((L1 or L2) op mod R, both orientations), all with <=1 operator node over the full alphabet and every core unary wrapper around every <=1-operator core expression; thorough adds all with <=2 operator nodes over the core alphabet (2.6 M expressions, complete; the full alphabet has ~130 M and would only ever be a time-capped sample, so it is not part of the tier) and all with <=3 operator nodes over a small alphabet (2 matcher sets, 4 wrappers, 2 operators, 3 modifiers; complete). Every expression on which pint makes a claim (a branch that cannot have some label of {a,b,c,__name__}, or a dead branch) is evaluated by the vendored Prometheus engine on EVERY database of <=2 series drawn from {foo,bar} x {a: absent|x|y} x {b: absent|x} x {c: absent|x}; oracle (i) labels the real alerts/template check reports for single-branch queries never appear on a returned series, (ii) every returned series is consistent with some live branch. distinct = expression text; non-trivial = pint makes a claim",
 		Assumptions: []string{
 			"the engine (promql.NewEngine of the vendored Prometheus) over our 60-line in-memory storage is the truth; one evaluation instant, 5m lookback, rising samples every minute",
 			"engine errors (many-to-many matching) count as no result",
